@@ -104,6 +104,16 @@ func jarCorpus(je *jarEngine) {
 		run("expires-future-max-age-shorter-"+sfx, opCycle("h1.test", "/", both(jcMaxAge("root", 2), 6, first)), opAdv(3), opGet("h1.test", "/"))
 		run("expires-past-max-age-zero-"+sfx, opSet("SetByHost", "h1.test", jc("root")), opCycle("h1.test", "/", both(jcDel("root", "max-age-0"), -3, first)), opGet("h1.test", "/"))
 	}
+	// names differing only in letter case are different cookies, through every way of storing
+	for _, api := range []string{"Set", "SetByHost"} {
+		run("names-differ-in-case-"+api, opSet(api, "h1.test", jc("root")), opSet(api, "h1.test", jc("ROOT")), opGet("h1.test", "/"),
+			opSet(api, "h1.test", jc("A1")), opSet(api, "h1.test", jc("a1")), opGet("h1.test", "/a"))
+	}
+	run("names-differ-in-case-SetKeyValue", opSet("SetKeyValue", "h1.test", jc("NP1")), opSet("SetKeyValueBytes", "h1.test", jc("np1")), opSet("SetKeyValue", "h1.test", jc("Np1")), opGet("h1.test", "/"))
+	run("names-differ-in-case-response", opCycle("h1.test", "/", jc("ROOT")), opCycle("h1.test", "/", jc("root")), opGet("h1.test", "/"),
+		opCycle("h1.test", "/", jcDel("root", "max-age-0")), opGet("h1.test", "/"))
+	run("names-differ-in-case-mixed", opCycle("h1.test", "/", jc("root")), opSet("SetByHost", "h1.test", jc("ROOT")), opCycle("h1.test", "/"), opGet("h1.test", "/"),
+		opSet("SetKeyValue", "h1.test", jc("np1")), opCycle("h1.test", "/", jc("NP1")), opGet("h1.test", "/"))
 	// sanity: these hold on a correct jar and on this one
 	run("sanity-expires", opSet("SetByHost", "h1.test", jcExp("root", 2)), opGet("h1.test", "/"), opAdv(3), opGet("h1.test", "/"))
 	run("sanity-hosts", opSet("SetByHost", "h1.test", jc("root")), opSet("SetKeyValue", "h2.test", jc("np1")),
